@@ -23,7 +23,7 @@ PROC_POOL = ["tomcat", "daclsvc", "cron"]
 
 PROBS = [0.5, 0.25, 0.9, 0.8, 1.0, 1, 0.5, 0.9, 1.0, 0, 0.0, 0.001, 0.999, 0.3333333333333333]
 COSTS = [1, 2, 3, 0.5, 1.25, 10, 1, 1, 0.1, 1000, 1e-06, 33554433, 0.30000000000000004]
-SCAN_COSTS = [0, 1, 2, 0.5, 1, 1]
+SCAN_COSTS = [0, 1, 2, 0.5, 1, 1, 0.3, 0.1, 1e-06]
 VALUES = [0, 1, -1, -100, 5, 0.5, 50, 0.125, 0.1, 16777217, -0.3]
 SENS_VALUES = [100, 10, 1, 0.5, 1000, 100, 0.1, 123456.75, 5.2, 1.1, 2.7, 20000000, 0.3]
 
